@@ -514,6 +514,10 @@ class Series(_Gap):
         d = self.duplicated("first")
         return sb(z3.Not(zor(z3.And(p, v) for p, v in zip(self.present, d.vals))))
 
+    @property
+    def loc(self):
+        return _SLoc(self)
+
     def groupby(self, by):
         if isinstance(by, Series) and by.kind == "bool":
             return _BoolGroupBy(self, by)
@@ -524,6 +528,16 @@ class Series(_Gap):
         if self.kind != "str":
             raise AttributeError("Can only use .str accessor with string values!")
         return _StrAccessor(self)
+
+
+class _SLoc:
+    def __init__(self, s):
+        self.s = s
+
+    def __getitem__(self, key):
+        if isinstance(key, (BoolArray, Series)):
+            return self.s[key]
+        raise ModelGap("Series.loc[non-mask]")
 
 
 class _BoolGroupBy:
@@ -663,6 +677,9 @@ class DataFrame(_Gap):
         raise ModelGap(f"DataFrame.__getitem__({type(k).__name__})")
 
     def __setitem__(self, k, v):
+        if v is None:
+            n = len(self.present)
+            v = Series([None] * n, nulls=[T] * n, present=self.present, kind="object", dtype=np.dtype(object))
         if not isinstance(v, Series):
             raise ModelGap("setitem non-series")
         v = v._new(present=self.present, index=self.index.copy(), name=k)
